@@ -228,11 +228,11 @@ func toPB(p inPoint) *agent.Point {
 	return pb
 }
 
-func genWire(r *kit.Rand, thorough bool, isReq bool, big bool) string {
+func genWire(r *kit.Rand, huge bool, thorough bool, isReq bool, big bool) string {
 	if big {
-		// payload sizes around the varint length boundaries: 2^7, 2^14 (quick), 2^21 (thorough)
+		// payload sizes around the varint length boundaries: 2^7, 2^14, and 2^21 (a few thorough cases)
 		sizes := []int{100, 120, 125, 126, 127, 128, 129, 130, 16370, 16380, 16384, 16390}
-		if thorough && r.Chance(1, 6) {
+		if huge {
 			sizes = []int{2097140, 2097152, 2097160}
 		}
 		n := kit.Pick(r, sizes)
@@ -303,8 +303,12 @@ func genFrameCase(r *kit.Rand, thorough bool, i int) []string {
 	if r.Chance(1, 10) {
 		n = 0
 	}
+	huge := thorough && i%600 == 0 // 4-byte varints: payloads of 2 MB, a handful of cases only (they are big to print)
+	if huge {
+		n = 2
+	}
 	for j := 0; j < n; j++ {
-		ops = append(ops, "w "+genWire(r, thorough, isReq, r.Chance(1, 5)))
+		ops = append(ops, "w "+genWire(r, huge && j == 0, thorough, isReq, r.Chance(1, 5) || (huge && j == 0)))
 	}
 	// several read schedules over the same stream: whole, 1-byte reads, generated patterns, last chunk with EOF,
 	// and cuts (the stream ends early: inside a varint, inside a body, at a frame boundary)
@@ -324,7 +328,7 @@ func genEchoCase(r *kit.Rand, thorough bool, i int) []string {
 	ka := 0
 	// one session per run (a few in the thorough tier) has keepalives on and sleeps long enough for one to cross
 	// the wire; the timeout is generous (3 s) so that a loaded machine cannot trip it
-	slow := i == 1 || (thorough && i%100 == 1)
+	slow := i == 1 || (thorough && i%500 == 1)
 	if slow {
 		ka = 3000
 	}
